@@ -18,6 +18,14 @@ func addAlternates(
 	_ Options,
 ) (nextroute.Model, error) {
 	if input.AlternateStops == nil {
+		for _, vehicle := range input.Vehicles {
+			if vehicle.AlternateStops != nil && len(*vehicle.AlternateStops) > 0 {
+				return model, nmerror.NewInputDataError(fmt.Errorf("alternate stop %s on vehicle %s not found",
+					(*vehicle.AlternateStops)[0],
+					vehicle.ID,
+				))
+			}
+		}
 		return model, nil
 	}
 
